@@ -441,7 +441,8 @@ class NostrQuery(BaseModel):
                 if k.startswith("#") and len(k) == 2 and isinstance(v, list):
                     tags.append((k[1], set(v)))
             tags.sort(reverse=True)
-        except AttributeError:
+        except (AttributeError, TypeError):
+            # not an object, or tag values that cannot be in a set (nested lists)
             raise StorageError("not a query")
         if tags:
             obj["tags"] = tags
